@@ -67,6 +67,9 @@ class Ghost:
         self.vc = VCV()
         self.stash = {}
         self.abstract_memo = {}
+        self.replaying = False
+        self.input_cache = {}
+        self.abstract_names = {}
 
     # ------------------------------------------------------------------ misc hooks used by lib
     def note_effect(self, what, *payload):
@@ -97,6 +100,8 @@ class Ghost:
             m = getattr(self, "vc_" + name, None)
             if m is None:
                 raise VCError(f"unknown harness API vc.{name}")
+            if name in self.INPUT_APIS:
+                return BuiltinFn("vc." + name, lambda I, a, k, n, m=m: self._input(m, a, k, n))
             return BuiltinFn("vc." + name, lambda I, a, k, n, m=m: m(a, k, n))
         if isinstance(obj, Outcome):
             if name == "kind":
@@ -122,6 +127,9 @@ class Ghost:
     # ------------------------------------------------------------------ abstract (loop-bearing) spec functions
     def fingerprint(self, v):
         """syntactic identity of an argument value (sound: equal fingerprints => equal values)"""
+        from .values import deref
+
+        v = deref(v)
         r = lib.as_rope(v)
         if r is not None:
             parts = [type(v).__name__]
@@ -143,6 +151,12 @@ class Ghost:
             return ("c", v)
         if isinstance(v, ObjV) and v.cls.is_dataclass and v.cls.frozen:
             return ("dc", v.cls.qualname) + tuple(self.fingerprint(v.fields[fd.name]) for fd in v.cls.dc_fields)
+        if isinstance(v, ListV):
+            return ("list",) + tuple(self.fingerprint(x) for x in v.items)
+        if isinstance(v, SymListV):
+            return ("symlist", self.fingerprint(v.prefix)) + tuple(self.fingerprint(x) for x in v.items)
+        if isinstance(v, SeqV) and v.ident is not None:
+            return ("seq", repr(v.ident), str(z3.simplify(zint(v.n))))
         return ("id", id(v))
 
     def abstract_call(self, f, args, kwargs, node):
@@ -159,17 +173,51 @@ class Ghost:
             k = I.ctx.choose(1 + len(raises))
             name = I.ctx.fresh_name("abs." + f.name)
             I.ctx.register_input(name + ".outcome", lambda m, k=k: k)
+            if not hasattr(self, "abstract_names"):
+                self.abstract_names = {}
             if k == 0:
+                self.abstract_names[key] = name
                 self.abstract_memo[key] = ("ret", I.call(spec["gen"], [self.vc, name] + list(args), {}, node))
+                I.ctx.note("abstract", f.qualname)
+                return self.abstract_memo[key][1]
             else:
                 self.abstract_memo[key] = ("raise", raises[k - 1])
             I.ctx.note("abstract", f.qualname)
         kind, v = self.abstract_memo[key]
         if kind == "ret":
+            if self.abstract_names.get(key) is not None and spec.get("effects"):
+                # same arguments, another copy of the state: replay the contract's effects
+                self.replaying = True
+                try:
+                    return I.call(spec["gen"], [self.vc, self.abstract_names[key]] + list(args), {}, node)
+                finally:
+                    self.replaying = False
             return v
         raise RaiseSig(I.instantiate(v, [], {}, node), where=I.where(node))
 
+    INPUT_APIS = ("int", "bool", "real", "choice", "bytes", "bytes_fixed", "opaque", "opaque_seq", "intset", "map", "text", "seq", "sym_list")
+
+    def _input(self, m, a, k, n):
+        """inputs are deterministic by name: re-running an abstract contract (replay of its
+        effects on another copy of the state) yields the very same symbolic values"""
+        name = a[0]
+        if self.replaying and name in self.input_cache:
+            return self.input_cache[name]
+        v = m(a, k, n)
+        self.input_cache[name] = v
+        return v
+
     def opaque_attr(self, obj, name, node):
+        if obj.tag == "option" and name == "build":
+            # an opaque option encodes to some byte string determined by the option
+            key = ("optenc", z3.simplify(obj.t).sexpr())
+            if key not in self.abstract_memo:
+                n = self.I.ctx.fresh_int("optenc.len")
+                self.I.ctx.assume(n >= 0)
+                fn = z3.Function(self.I.ctx.fresh_name("optenc.at"), z3.IntSort(), z3.IntSort())
+                self.abstract_memo[key] = SBytes((View(fn, 0, n),))
+            rope = self.abstract_memo[key]
+            return BuiltinFn("option.build", lambda I, a, k, n, rope=rope: rope)
         raise OutsideSubset(f"attribute {name!r} of opaque {obj.tag} at {self.I.where(node)}")
 
     def map_method(self, m, name, args, kwargs, node):
@@ -202,10 +250,52 @@ class Ghost:
         return "<str>"
 
     def list_of_seq(self, v, node):
-        raise OutsideSubset("list() of a symbolic-length sequence")
+        return SymListV(SeqV(v.n, v.at, "tuple", ident=v.ident))
 
     def join_gen(self, gen, node):
-        return NotImplemented
+        """b"".join(<expr> for x in <sequence of symbolic length>): an abstract byte string
+        that is a deterministic function of the sequence and of the element encoder.  The
+        encoder is evaluated once on a Skolem element (it must not raise there: element
+        preconditions belong to the caller's contract); two joins over the same sequence
+        whose encoders produce the same bytes for that element are the same string."""
+        from .interp import RaiseSig
+
+        I = self.I
+        g = gen.node
+        if len(g.generators) != 1 or g.generators[0].ifs:
+            return NotImplemented
+        seq = I.eval(g.generators[0].iter, gen.env)
+        if isinstance(seq, SymListV):
+            seq = lib.symlist_as_seq(I, seq)
+        if not isinstance(seq, SeqV) or isinstance(seq.n, int):
+            return NotImplemented
+        sid = repr(seq.ident) if seq.ident is not None else f"seq@{id(seq)}"
+        if not hasattr(self, "join_sk"):
+            self.join_sk, self.join_memo = {}, {}
+        if sid not in self.join_sk:
+            k = z3.Int(f"joinsk!{sid}")
+            I.ctx.assume(k >= 0)
+            self.join_sk[sid] = k
+        k = self.join_sk[sid]
+        from .objects import Env
+
+        cenv = Env(parent=gen.env)
+        I.assign_target(g.generators[0].target, seq.at(k), cenv)
+        try:
+            r = I.eval(g.elt, cenv)
+        except RaiseSig as exc:
+            raise OutsideSubset(f"join over a symbolic sequence whose element encoder may raise ({exc.exc.cls.name}) at {I.where(node)}")
+        rr = lib.as_rope(r)
+        if rr is None:
+            I.throw("TypeError", "sequence item: expected a bytes-like object", node=node)
+        key = (sid, self.fingerprint(r))
+        if key not in self.join_memo:
+            n = I.ctx.fresh_int("join.len")
+            I.ctx.assume(n >= 0)
+            fn = z3.Function(I.ctx.fresh_name("join.at"), z3.IntSort(), z3.IntSort())
+            self.join_memo[key] = SBytes((View(fn, 0, n),))
+            I.ctx.note("axiom", "b''.join over a symbolic sequence is an uninterpreted function of (sequence, element encoder)")
+        return self.join_memo[key]
 
     def ascii_decode(self, rope, node):
         """bytes.decode('ascii'): UnicodeDecodeError iff some byte >= 128"""
@@ -588,6 +678,24 @@ class Ghost:
         ctx.register_input(name, lambda m: ex(m, arr, probe))
         return s
 
+    def vc_forall(self, args, kwargs, node):
+        """vc.forall(lo, hi, fn): for all integers m with lo <= m < hi: fn(m).  fn must be
+        fork-free on a symbolic m (term-level sequence access, arithmetic, ==)."""
+        I = self.I
+        lo, hi, fn = args[0], args[1], args[2]
+        m = z3.Int(I.ctx.fresh_name("q"))
+        n0 = len(I.ctx.trace)
+        self.raw_index = True
+        try:
+            body = I.call(fn, [SInt(m)], {}, node)
+        finally:
+            self.raw_index = False
+        if len(I.ctx.trace) != n0:
+            raise OutsideSubset("vc.forall: the body forked on the bound variable")
+        bt = body.t if isinstance(body, SBool) else z3.BoolVal(bool(body))
+        rng = z3.And(m >= zint(int_term(lo)), m < zint(int_term(hi)))
+        return SBool(z3.ForAll([m], z3.Implies(rng, bt)))
+
     def vc_assume(self, args, kwargs, node):
         I = self.I
         c = args[0]
@@ -740,6 +848,9 @@ class Ghost:
 
     # ------------------------------------------------------------------ structural equality proof
     def prove_eq(self, a, b, label, node):
+        from .values import deref
+
+        a, b = deref(a), deref(b)
         I = self.I
         ctx = I.ctx
         where = I.where(node)
@@ -766,6 +877,12 @@ class Ghost:
             return
         if isinstance(a, ListV) and isinstance(b, ListV):
             return self.prove_eq(tuple(a.items), tuple(b.items), label, node)
+        if isinstance(a, SymListV) and isinstance(b, SymListV) and a.prefix is b.prefix:
+            return self.prove_eq(tuple(a.items), tuple(b.items), label, node)
+        if isinstance(a, SymListV):
+            a = lib.symlist_as_seq(I, a)
+        if isinstance(b, SymListV):
+            b = lib.symlist_as_seq(I, b)
         if isinstance(a, (SeqV, tuple, ListV)) and isinstance(b, (SeqV, tuple, ListV)):
             sa, sb = self._as_seq(a), self._as_seq(b)
             ok = ctx.check(zint(sa.n) == zint(sb.n), label + ".len", where)
